@@ -101,8 +101,31 @@ def r08a(chk, rid='R08.a'):
         me = _Obj(**{'__fetcher': 'F', 'parseString': lambda text_, **k: calls.append(k)})
         got = _Ev(pu, intrinsics={'cssutils.util._readUrl': lambda href, **k: ret}, module=pm, cls='CSSParser').run(self=me, href='u.css')
         chk.ob(rid, PARSE, 'CSSParser.parseUrl', 'nothing is parsed when nothing could be read', not calls and got is None, f'{got!r}', trivial=True)
-    ps = ast.unparse(chk.repo.fn(PARSE, 'CSSParser.parseString'))
-    chk.ob(rid, PARSE, 'CSSParser.parseString', "byte input is decoded by the css codec with the caller's encoding, which is also handed on as override", "codecs.getdecoder('css')(cssText, encoding=encoding)[0]" in ps and 'encodingOverride=encoding' in ps, '', shape=True)
+    # parseString: what is decoded how, and what is handed on as the override for imported sheets
+    psf = chk.repo.fn(PARSE, 'CSSParser.parseString')
+    for label, data, enc in (('text', 'a{}', None), ('text with an encoding argument', 'a{}', 'koi8-r'), ('bytes', b'a{}', None), ('bytes with a BOM', b'\xef\xbb\xbfa{}', None),
+                             ('bytes with an @charset rule', b'@charset "iso-8859-1";a{}', None), ('bytes with an encoding argument', b'\xef\xbb\xbfa{}', 'koi8-r')):
+        decoded, handed = [], []
+
+        def getdecoder(name):
+            return lambda b, encoding=None: (decoded.append((name, b, encoding)), ('decoded text', len(b)))[1]
+
+        def newsheet(**k):
+            sh = _Obj(**k)
+            sh._setFetcher = lambda f: None
+            sh._setCssTextWithEncodingOverride = lambda toks, encodingOverride=None, encoding=None: handed.append((toks, encodingOverride, encoding))
+            return sh
+
+        me = _Obj(**{'__fetcher': 'F', '_validate': True, '__parseSetting': lambda on: None, '__tokenizer': _Obj(tokenize=lambda text_, fullsheet=False: ('tokens of', text_, fullsheet))})
+        from sa.absint import Record as _Rec
+
+        intr = {'codecs.getdecoder': getdecoder, 'cssutils': _Rec(css=_Rec(CSSStyleSheet=newsheet), stylesheets=_Rec(MediaList=lambda media=None: ('media', media)), codec=_Rec(detectencoding_str=lambda b, final=False: ('utf-8-sig', True) if b[:3] == b'\xef\xbb\xbf' else ('utf-8', False))),
+                'codec': _Rec(detectencoding_str=lambda b, final=False: ('utf-8-sig', True) if b[:3] == b'\xef\xbb\xbf' else ('utf-8', False))}
+        got = _Ev(psf, intrinsics=intr, module=pm, cls='CSSParser').run(self=me, cssText=data, encoding=enc)
+        text_in = 'decoded text' if isinstance(data, bytes) else data
+        ok = not isinstance(got, _Raised) and handed == [(('tokens of', text_in, True), enc, None)] and (decoded == ([('css', data, enc)] if isinstance(data, bytes) else []))
+        chk.ob(rid, PARSE, 'CSSParser.parseString', f'{label}: bytes go through the css codec with the caller\'s encoding; the override handed on to imported sheets is the encoding the caller gave ({enc!r}), nothing sniffed (by evaluation)', ok,
+               f'decoded {decoded}, handed on {handed}' + (f', {got!r}' if isinstance(got, _Raised) else '') + ' - an encoding nobody asked for overrides the transport charset and @charset of every imported sheet')
 
 
 def r08b(chk, rid='R08.b'):
